@@ -27,7 +27,7 @@ TIERS = {
     # (slowest obligation of the unchanged tree: ~80 s of solver time here; an obligation that is FALSE on a changed tree uses its whole budget,
     # which is what ob_s caps)
     "quick": dict(rlimit=200_000_000, timeout_ms=300_000, cvc5=True, ob_s=420),
-    "thorough": dict(rlimit=1_000_000_000, timeout_ms=900_000, cvc5=True, ob_s=2400),
+    "thorough": dict(rlimit=1_000_000_000, timeout_ms=900_000, cvc5=True, ob_s=2400, confirm=True),
 }
 
 
@@ -352,6 +352,7 @@ class Runner:
                     "subgoals": len(subs),
                     "backends": sorted({sr["backend"] for sr in subs if sr["backend"]}),
                     "solver_s": round(sum(sr["secs"] for sr in subs), 3),
+                    **({"second_backend": sorted({sr.get("second") or "not-run" for sr in subs})} if any(sr.get("second") for sr in subs) else {}),
                 }
             )
             if worst == "refuted":
@@ -457,6 +458,10 @@ class Runner:
                 "per_obligation": self.obligations,
                 "solver_seconds": round(sum(o["solver_s"] for o in self.obligations), 2),
                 "backends": sorted({b for o in self.obligations for b in o["backends"]}),
+                "second_backend_confirmation": {
+                    "sub_goal_sets_confirmed_unsat_by_cvc5": sum(1 for o in self.obligations if o.get("second_backend") == ["unsat"]),
+                    "cvc5_unknown_or_mixed": sum(1 for o in self.obligations if o.get("second_backend") and o.get("second_backend") != ["unsat"]),
+                } if self.budget.get("confirm") else None,
                 "samples": [{"id": o["id"], "status": o["status"], "backends": o["backends"]} for o in self.obligations[:6]],
                 "vacuity_canaries_checked": self.canaries,
                 "dead_paths": self.dead_paths[:40],  # explored paths whose branch conditions cannot occur (e.g. the failing side of an assert)
@@ -513,7 +518,7 @@ def work_item(i):
         for pc2, g, sk in subs:
             hints = hint_fn(sk)
             stages = smt.build_stages(pc2, g, sk, ob.idx, hints, E.c.float)
-            r = smt.solve_stages(stages, runner.budget["rlimit"], runner.budget["timeout_ms"], runner.budget["cvc5"], terms, deadline)
+            r = smt.solve_stages(stages, runner.budget["rlimit"], runner.budget["timeout_ms"], runner.budget["cvc5"], terms, deadline, confirm=runner.budget.get("confirm", False))
             r["goal"] = str(g)[:400].replace("\n", " ")
             out.append(r)
             if r["verdict"] in ("sat", "sat-qf"):
@@ -576,7 +581,7 @@ def bounded_check(ev, prop, script, name, target, timeout=1200):
     res_path = os.path.join(outdir, f"bounded_{stem}.json")
     if os.path.exists(res_path):
         os.remove(res_path)
-    env = dict(os.environ, PYTHONPATH=repo_root() + os.pathsep + VERIF)
+    env = dict(os.environ, PYTHONPATH=repo_root() + os.pathsep + VERIF, VERIF_TIER=str(ev.get("tier", "quick")))  # thorough: the scripts enlarge their bounds
     p = subprocess.run(["/venv/bin/python", os.path.join(VERIF, "bounded", script), res_path], capture_output=True, text=True, env=env, timeout=timeout)
     cov = ev["coverage"]
     if p.returncode not in (0, 1) or not os.path.exists(res_path):
